@@ -187,3 +187,35 @@ def extra(ctx, args):
                f"{sum(1 for _, st, _ in rr if st == 'silent')} stored behaviour-preserving refactorings silent, "
                f"{sum(1 for _, st, _ in rr if st == 'no-verdict')} without a verdict as recorded, "
                f"{sum(1 for _, st, _ in rr if st == 'skipped')} skipped because their patch no longer applies")
+
+    # seeded breaking changes of this property (DESIGN 8d): each must still be reported (exit 1) when applied to a scratch copy of the
+    # tree under analysis; one that has fallen silent means a rule has died
+    spats = sorted(glob.glob(os.path.join(here, "seeded", f"{ctx.pid}-*", "patch.diff")))
+    if spats and shutil.which("patch"):
+        def sone(pf):
+            tmp = tempfile.mkdtemp(prefix="osuverif-sd-")
+            try:
+                dst = os.path.join(tmp, "src", "ocean_science_utilities")
+                shutil.copytree(os.path.join(args.root, "src", "ocean_science_utilities"), dst, ignore=shutil.ignore_patterns("__pycache__"))
+                pr = subprocess.run(["patch", "-s", "-p1", "-i", pf], cwd=tmp, capture_output=True, text=True)
+                if pr.returncode != 0:
+                    return pf, "skipped", "patch no longer applies"
+                env = dict(os.environ)
+                env["OSU_VERIF_NO_EVIDENCE"] = "1"
+                r = subprocess.run([sys.executable, "-B", "-m", "osuverif.main", ctx.pid, "--root", tmp, "--tier", "quick"], cwd=here,
+                                   capture_output=True, text=True, env=env, timeout=900)
+                if r.returncode == 1 and "VIOLATION" in r.stdout:
+                    return pf, "reported", ""
+                return pf, "missed", f"exit {r.returncode}"
+            finally:
+                shutil.rmtree(tmp, ignore_errors=True)
+        with ThreadPoolExecutor(max_workers=8) as ex:
+            sr = list(ex.map(sone, spats))
+        for pf, st, out in sr:
+            if st == "missed":
+                ctx.unsure(f"R{ctx.pid[1:]}.live", f"seeded:{os.path.basename(os.path.dirname(pf))}",
+                           "a stored breaking change of this property is no longer reported: the checker, not the repository, "
+                           "needs attention", derived=out)
+        ctx.ok(f"R{ctx.pid[1:]}.live", "<seeded replay>",
+               f"{sum(1 for _, st, _ in sr if st == 'reported')} stored breaking changes reported, "
+               f"{sum(1 for _, st, _ in sr if st == 'skipped')} skipped because their patch no longer applies to this tree")
